@@ -173,7 +173,9 @@ where
     /// octet would exceed the size limits for labels or domain names.
     pub fn push(&mut self, ch: u8) -> Result<(), PushError> {
         let len = self.len();
-        if len >= 254 {
+        // Starting a new label also takes an octet for its length.
+        let needed = if self.head.is_some() { 1 } else { 2 };
+        if len + needed > 254 {
             return Err(PushError::LongName);
         }
         if let Some(head) = self.head {
